@@ -300,7 +300,14 @@ def rule_modified_implies_hook(check, rule="MODIFIED-HOOK"):
                 if l.get("k") == "Field" and l["field"] == "status" and "TransformStatus" in (l.get("base_ty") or ""):
                     writers.add((f.name, f.def_path))
     names = sorted(w[0] for w in writers)
-    check.expect(names == ["cancel_visit", "update_status"], rule, rule + "/status-writers", "-", "TransformStatus.status is assigned only in %s" % names, "TransformStatus.status is assigned in %s" % names)
+    # by role: update_status, plus - in the block driver only - writes of the constant Status::Cancelled
+    # (cancel_visit, or the refusal written out where it is decided)
+    def _only_cancels(defp):
+        f_ = prog.by_def[defp]
+        ws = [n for n in f_.nodes() if n.get("k") in ("Assign", "AssignOp") and hir.peel(n["l"]).get("k") == "Field" and hir.peel(n["l"])["field"] == "status" and "TransformStatus" in (hir.peel(n["l"]).get("base_ty") or "")]
+        return bool(ws) and all(hir.is_cancel_write(n) for n in ws) and "BlockTransformVisitor" in defp
+    ok_w = "update_status" in names and all(nm == "update_status" or _only_cancels(dp) for nm, dp in writers)
+    check.expect(ok_w, rule, rule + "/status-writers", "-", "TransformStatus.status is assigned only in %s (update_status; the block driver writes Cancelled)" % names, "TransformStatus.status is assigned in %s" % names)
     # struct invariant of TransformResult: constructed only inside its three constructors
     ctors = []
     for f in prog.user_fns:
